@@ -58,13 +58,23 @@ def arm_class(body):
 DIRECTIONAL = {"relate_alias_ty", "relate_var_ty", "unify_lifetime_var"}
 
 
-def symmetry(ck, R, body, match, variants, what):
+def symmetry(ck, R, body, match, variants, what, refine=None):
+    """`refine`: {variant: (field index, [sub-variant names])} - a variant whose payload carries a small enum the arms may discriminate
+    on (the kind of an inference variable, the mutability of a reference) is split into one abstract value per sub-variant, so that
+    `(InferenceVar(v, General), t)` mirrored by `(t, InferenceVar(v, _))` is seen as the asymmetry it is."""
     n = 0
-    for i, ka in enumerate(variants):
-        for kb in variants[i + 1:]:
+    items = []
+    for v_ in variants:
+        if refine and v_ in refine and refine[v_][1]:
+            idx, subs = refine[v_]
+            items += [("%s[%s]" % (v_, s_), V(v_, **{str(idx): V(s_)})) for s_ in subs]
+        else:
+            items.append((v_, V(v_)))
+    for i, (ka, va) in enumerate(items):
+        for kb, vb in items[i + 1:]:
             n += 1
-            ab = select_arms(match, T(V(ka), V(kb)))
-            ba = select_arms(match, T(V(kb), V(ka)))
+            ab = select_arms(match, T(va, vb))
+            ba = select_arms(match, T(vb, va))
             inst = "%s:(%s,%s)" % (what, ka, kb)
             if not ab or not ba:
                 ck.violation(R, inst, body.where(), "pair not covered")
@@ -225,5 +235,9 @@ def run(ck, facts, tier):
         if len(ms) != 1:
             ck.violation(R, "%s:match" % what, b.where(), "expected one match over a pair of %s" % adt_)
             continue
-        total += symmetry(ck, R, b, ms[0], facts.variants(adt_), what)
+        refine = None
+        if what == "ty":
+            refine = {"InferenceVar": (1, facts.variants("chalk_ir::TyVariableKind")),
+                      "Ref": (0, facts.variants("chalk_ir::Mutability")), "Raw": (0, facts.variants("chalk_ir::Mutability"))}
+        total += symmetry(ck, R, b, ms[0], facts.variants(adt_), what, refine)
     ck.floor(R, "unordered-pairs", total, 253 + 21 + 6)
